@@ -17,7 +17,7 @@ GInit == Init /\ hist = <<>>
 
 GTake == \E w \in Waiters, n \in Sizes :
             /\ Take(w, n)
-            /\ hist' = Append(hist, [w |-> w, n |-> n, now |-> now, wake |-> wake'[w], avail |-> avail'])
+            /\ hist' = Append(hist, [w |-> w, n |-> n, now |-> now, wake |-> wake'[w], avail |-> avail'[BucketOf(w)]])
 GPass == \E w \in Waiters : Pass(w) /\ UNCHANGED hist
 GTick == Tick /\ UNCHANGED hist
 
